@@ -255,8 +255,14 @@ func (c KnownHostsCallback) trustHosts(hosts []unknownHost) {
 		address := strings.SplitN(line, " ", 2)[0]
 
 		if _, ok := addresses[address]; !ok {
-			newFd.WriteString(fmt.Sprintf("%s\n", line))
+			if _, err := newFd.WriteString(fmt.Sprintf("%s\n", line)); err != nil {
+				panic(err)
+			}
 		}
+	}
+	// Don't replace the known hosts file by an incomplete copy of it.
+	if err := scanner.Err(); err != nil {
+		panic(err)
 	}
 
 	// Now, replace old known hosts file
